@@ -86,7 +86,7 @@ class C02(Check):
                    'including an exception, is accepted; feature/feature division by an exact zero is NaN',
                    "'^' only with the literal exponents 2, 3, 0.5"]
     outside = ['floating-point rounding (x*(1/k) and x/k are equal in the model)', 'feature ^ feature, scalar ^ feature, %, !, >>, <<, prime notation', 'EXP LOG COS SIN TAN values',
-               'MEDIAN, MAD, STD, RMSE', 'ARGMIN / ARGMAX of vectors containing NaN']
+               'MEDIAN / ARGMIN / ARGMAX of vectors containing NaN']
     budget = {'quick': 200, 'thorough': 2400}
 
     def bounds(self, tier):
